@@ -29,6 +29,7 @@ class RunResult:
     errors: int = 0
     failures: list = field(default_factory=list)
     hard_errors: list = field(default_factory=list)   # compile / unsupported / internal errors
+    hard_sites: list = field(default_factory=list)    # same, with the function of the generated file they point into
     resource: list = field(default_factory=list)      # rlimit / timeout diagnostics
     fn_stats: dict = field(default_factory=dict)      # verus fn name -> {time_ms, rlimit, success, mode}
     smt_ms: int = 0
@@ -116,7 +117,11 @@ def run_verus(path, built, rlimit=None, extra=None, timeout=900):
                 kind = k
                 break
         if kind is None:
+            spans = d.get("spans", [])
+            prim = [x for x in spans if x.get("is_primary")] or spans
+            hl = prim[0]["line_start"] if prim and not prim[0].get("file_name", "").startswith("/") else 0
             res.hard_errors.append(d.get("rendered") or msg)
+            res.hard_sites.append({"message": msg, "line": hl, "fid": fn_for_line(built, hl) if hl else None})
             continue
         res.failures.append(_classify(d, kind, built))
     if out is None and not res.hard_errors and not res.failures:
